@@ -15,7 +15,17 @@ from numpy.exceptions import VisibleDeprecationWarning as NumpyVisibleDeprecatio
 
 class KGChar(str):
     """Character type for Klong."""
-    pass
+    # never equal to a symbol (klongpy.types.KGSym, which this module cannot import);
+    # see klongpy.types.KGChar
+    def __eq__(self, o):
+        return type(o).__name__ != 'KGSym' and str.__eq__(self, o)
+
+    def __ne__(self, o):
+        r = self.__eq__(o)
+        return r if r is NotImplemented else not r
+
+    def __hash__(self):
+        return str.__hash__(self)
 
 
 class NumpyBackendProvider(BackendProvider):
